@@ -111,7 +111,7 @@ def make_b(name, items):
         env = {"kind": "ok", "bad": bad, "badkind": bad[0], "badidx": bad[1], "low_label": _low(r)}
         env.update(r.vals)
         return ctx.known(PID, {"part": "b", "tpl": name}, env), info
-    return Ob("C02:b:" + name, body, timeout=120, tags={"part": "b", "tpl": name}, text=tpl.text)
+    return Ob("C02:b:" + name, body, timeout=(500 if name.startswith("rnd") else 120), tags={"part": "b", "tpl": name}, text=tpl.text)
 
 
 def make_c(name, items, gaps):
@@ -192,8 +192,58 @@ def _later_org(ctx, out, first_code=True):
     return True
 
 
+def random_templates(seed, count):
+    """seeded random programs: 6-14 statements drawn from a pool of statement kinds, labels on about half of them,
+    references forwards and backwards, up to two symbolic gaps, symbolic origin (or none) and operand values"""
+    import random
+    rnd = random.Random(seed * 1000 + 77)
+    out = {}
+    for t in range(count):
+        n = rnd.randint(6, 14)
+        labels = ["R%d" % i for i in range(n) if rnd.random() < 0.5] or ["R0"]
+        lits = [("lit", "v", "D3", 0, 255), ("lit", "w", "D5", 0, 65535), ("lit", "x", "N3", -128, 127)]
+        items = []
+        if rnd.random() < 0.8:
+            items.append(("org", rnd.choice(["H4", "H4", "H2"])))
+        gaps = 0
+        body = []
+        for i in range(n):
+            lab = "R%d" % i if ("R%d" % i) in labels else ""
+            ref = rnd.choice(labels)
+            kind = rnd.choice(["nop", "imm8", "imm16", "lblimm", "ext", "jmp", "lbra", "pcr", "pcr2", "idx", "idxneg", "idx16",
+                               "stack", "tfr", "fcb", "fdb", "fcc", "inh2", "dir", "extind", "gap", "equ"])
+            if kind == "gap":
+                if gaps < 2:
+                    gaps += 1
+                    if lab:
+                        body.append(("ins", lab, "NOP", ""))
+                    body.append(("gap", "n%d" % gaps, rnd.choice([300, 40000])))
+                    continue
+                kind = "nop"
+            st = {
+                "nop": ("NOP", ""), "imm8": ("LDA", "#{v}"), "imm16": ("LDX", "#{w}"), "lblimm": ("LDU", "#%s" % ref),
+                "ext": ("STA", ">{w}"), "jmp": ("JMP", ref), "lbra": (rnd.choice(["LBRA", "LBSR", "LBNE"]), ref),
+                "pcr": ("LEAX", "%s,PCR" % ref), "pcr2": ("LDD", "[%s,PCR]" % ref), "idx": ("LDB", "{v},Y"),
+                "idxneg": ("STA", "{x},U"), "idx16": ("LDX", "{w},S"), "stack": ("PSHS", "A,X,PC"), "tfr": ("TFR", "D,Y"),
+                "fcb": ("FCB", "1,2,{v}"), "fdb": ("FDB", "{w},7"), "fcc": ("FCC", "/AB/"), "inh2": (rnd.choice(["SWI2", "SWI", "SYNC", "RTS"]), ""),
+                "dir": ("LDA", "<{v}"), "extind": ("JSR", "[{w}]"), "equ": ("EQU", "{w}"),
+            }[kind]
+            if kind == "equ":
+                if not lab or rnd.random() < 0.5:
+                    body.append(("ins", lab, "NOP", ""))
+                    continue
+                body.append(("ins", "K%d" % i, "EQU", "{w}"))
+                body.append(("ins", lab, "NOP", ""))
+                continue
+            body.append(("ins", lab, st[0], st[1]))
+        out["rnd%d" % t] = lits + items + body + [("ins", "TAIL", "NOP", "")]
+    return out
+
+
 def obligations(tier, seed):
     obs = [make_a(sh) for sh in stmt.corpus(tier, seed)]
+    for name, items in random_templates(seed, 12 if tier == "quick" else 150).items():
+        obs.append(make_b(name, items))
     for name, items in TEMPLATES.items():
         obs.append(make_b(name, items))
         for gaps in ([0], [1, 2], [255, 256], [3, 1000]):
